@@ -113,10 +113,16 @@ Verdict_MD003(B, cfg) ==
   V({B[i].ln : i \in {x \in hs : Family(B[x].style) # want}},
     {B[i].ln : i \in {x \in hs : want = "setext" /\ B[x].level >= 3}})
 
-(* MD024 no-duplicate-heading: a heading whose text equals the text of an earlier heading.  Undecided: texts with inline markup. *)
-Verdict_MD024(B) ==
-  LET hs == Blocks(B, "h") IN
-  V({B[i].ln : i \in {x \in hs : \E y \in hs : y < x /\ B[y].text = B[x].text}},
+(* MD024 no-duplicate-heading: a heading whose text equals the text of an earlier heading.  With siblings_only only "twins" count: the same text at the same level under the same parent heading (the nearest
+   earlier heading of a lower level).  Undecided: texts with inline markup. *)
+ParentHeading(B, x) ==
+  LET up == {j \in 1..(x - 1) : B[j].k = "h" /\ B[j].level < B[x].level} IN
+  IF up = {} THEN 0 ELSE CHOOSE j \in up : \A m \in up : m <= j
+Verdict_MD024(B, cfg) ==
+  LET hs == Blocks(B, "h")
+      dup(x, y) == y < x /\ B[y].text = B[x].text
+                   /\ (cfg.siblings_only => B[y].level = B[x].level /\ ParentHeading(B, x) = ParentHeading(B, y)) IN
+  V({B[i].ln : i \in {x \in hs : \E y \in hs : dup(x, y)}},
     {B[i].ln : i \in {x \in hs : B[x].markup}})
 
 (* MD026 no-trailing-punctuation: the heading text ends in one of the configured characters.  Undecided: a text ending in ';'
